@@ -285,9 +285,7 @@ func (c *Ctx) errorMatters(ci ssa.CallInstruction) bool {
 	}
 	n := sc.String()
 	pk := ""
-	if sc.Pkg != nil {
-		pk = sc.Pkg.Pkg.Path()
-	}
+	pk = pkgPathOf(sc)
 	switch {
 	case pk == "go/format", pk == "os", pk == "io", pk == "io/ioutil", pk == "bufio":
 		return true
